@@ -1297,8 +1297,13 @@ class Builder(object):
                 index += 1
 
                 if connective == 'at':
-                    period = max(0.0, Convert2Num(tokens[index]))
+                    period = Convert2Num(tokens[index])
                     index +=1
+                    if isinstance(period, complex):
+                        msg = "Error building %s. Bad period got %s." %\
+                                (command, period)
+                        raise excepting.ParseError(msg, tokens, index)
+                    period = max(0.0, period)
 
                 elif connective == 'be':
                     option = tokens[index]
